@@ -49,7 +49,7 @@ def run_shard(shard, tier, seed):
     if shard['kind'] == 'rdkit':
         strat = st.fixed_dictionaries({'rdkit_block': st.integers(0, len(molgen.corpus()) - 1), 'v3000': st.booleans()})
         return hyp_run(ID, strat, check_case, max_examples=shard['n'], seed=seed * 1000 + 300 + shard['shard'])
-    specs = molgen.mol_specs(max_atoms=12, corpus_w=5, curated_w=4, graph_w=5, literal_w=0, sym_w=1)
+    specs = molgen.mol_specs(max_atoms=12, corpus_w=5, curated_w=5, graph_w=5, literal_w=0, sym_w=3)
     strat = st.fixed_dictionaries({
         'mols': st.lists(specs, min_size=1, max_size=4), 'writer': st.sampled_from(WRITERS), 'seed': st.integers(0, 2 ** 31),
         'layout': st.sampled_from(['rdkit', 'rdkit', 'rdkit', 'clean2d', 'none']),
@@ -64,6 +64,7 @@ def layout(m, how, rnd):
     if how == 'none':
         return False
     if how == 'clean2d':
+        _random.seed(rnd.randrange(2 ** 30))  # clean2d draws from the global generator: make the case a function of its seed
         m.clean2d()
         return True
     from rdkit import Chem
@@ -128,6 +129,20 @@ def _odd(m):
         return True
 
 
+def _precision_stable(a):
+    """the wedge signs must not depend on digits the record formats do not store (MDL: 4 decimals, MRV: 4 decimals of 2x)"""
+    want = sorted(a._wedge_map)
+    for scale in (1, 2):
+        r = a.copy()
+        for _, at in r.atoms():
+            at.x, at.y = round(at.x * scale, 4) / scale, round(at.y * scale, 4) / scale
+        r.flush_cache()
+        r.calc_labels()
+        if sorted(r._wedge_map) != want:
+            return False
+    return True
+
+
 def compare_mol(a, b, rec, label, coords):
     if record_fields(a) != record_fields(b):
         fa, fb = record_fields(a), record_fields(b)
@@ -135,22 +150,16 @@ def compare_mol(a, b, rec, label, coords):
         rec.fail('record', f'{label}: atoms/bonds differ after reading: {d} ({len(fa[0])}/{len(fb[0])} atoms, '
                            f'{len(fa[1])}/{len(fb[1])} bonds)', sig='atoms' if fa[0] != fb[0] else 'bonds')
         return False
-    if coords and any(sg == 0 for *_, sg in a._wedge_map):
-        rec.count('layout is degenerate for a labelled centre (wedge sign 0): stereo not asserted')
+    if coords and (any(sg == 0 for *_, sg in a._wedge_map) or not _precision_stable(a)):
+        rec.count('layout is degenerate for a labelled centre (wedge sign 0, or sign decided below the 4 decimals a record keeps): '
+                  'stereo not asserted')
+        coords = False
+    if coords and a.chiral_cis_trans:
+        # a double bond that could carry a label but does not: a coordinate record cannot say "unspecified" (the reader derives
+        # cis/trans from the drawing), so centres whose stereogenicity depends on it are outside the claim
+        rec.count('unlabelled stereogenic double bond with coordinates: stereo not asserted')
         coords = False
     if coords:
-        # stereo: only centres without explicit hydrogen neighbours are claimed
-        sub = {n for n in a.stereogenic_tetrahedrons if a.atom(n).stereo is not None and
-               not any(a.atom(k).atomic_number == 1 for k in a._bonds[n])}
-        for n in sub:
-            env = a.stereogenic_tetrahedrons[n]
-            if b.atom(n).stereo is None:
-                rec.fail('stereo', f'{label}: tetrahedral label of atom {n} lost',
-                         sig='tetrahedral-lost:odd-label-orbit' if _odd(a) else 'tetrahedral-lost')
-                return False
-            if b._translate_tetrahedron_sign(n, env) != a._translate_tetrahedron_sign(n, env):
-                rec.fail('stereo', f'{label}: configuration of atom {n} inverted', sig='tetrahedral-sign')
-                return False
         # cis/trans is re-derived from the coordinates by the reader: claimed only if the layout encodes the label
         probe = a.copy()
         for *_, bb in probe.bonds():
@@ -161,6 +170,22 @@ def compare_mol(a, b, rec, label, coords):
             probe.calculate_cis_trans_from_2d()
         except Exception:
             probe = None
+        drawn = probe is not None and all(probe.bond(x, y).stereo == bb.stereo for x, y, bb in a.bonds() if bb.stereo is not None)
+        # stereo: only centres without explicit hydrogen neighbours are claimed; and only if the drawing shows the labelled
+        # double bonds as labelled (otherwise the record describes another stereoisomer, whose centres may not be stereogenic)
+        sub = {n for n in a.stereogenic_tetrahedrons if a.atom(n).stereo is not None and
+               not any(a.atom(k).atomic_number == 1 for k in a._bonds[n])} if drawn else set()
+        if not drawn:
+            rec.count('drawing does not show every labelled double bond as labelled: tetrahedral labels not asserted')
+        for n in sub:
+            env = a.stereogenic_tetrahedrons[n]
+            if b.atom(n).stereo is None:
+                rec.fail('stereo', f'{label}: tetrahedral label of atom {n} lost',
+                         sig='tetrahedral-lost:odd-label-orbit' if _odd(a) else 'tetrahedral-lost')
+                return False
+            if b._translate_tetrahedron_sign(n, env) != a._translate_tetrahedron_sign(n, env):
+                rec.fail('stereo', f'{label}: configuration of atom {n} inverted', sig='tetrahedral-sign')
+                return False
         for (n, k), env in a.stereogenic_cis_trans.items():
             i, j = a._stereo_cis_trans_centers[n]
             if a.bond(i, j).stereo is None or any(a.atom(x).atomic_number == 1 for x in env if x is not None):
